@@ -18,6 +18,7 @@ import (
 
 type SolverStats struct {
 	Queries, Sat, Unsat, Unknown, Errors int
+	Restarts                             int
 	Time                                 time.Duration
 }
 
@@ -32,6 +33,7 @@ type Solver struct {
 	Stats   SolverStats
 	log     *bufio.Writer // optional transcript
 	timeout int           // ms per check
+	broken  bool          // a protocol error occurred: the worker restarts the solver and repeats the path
 	dead    bool
 }
 
@@ -240,6 +242,7 @@ func (s *Solver) Check() string {
 	s.Stats.Queries++
 	if err != nil {
 		s.Stats.Errors++
+		s.broken = true
 		return "error"
 	}
 	switch {
@@ -254,6 +257,7 @@ func (s *Solver) Check() string {
 		return "unknown"
 	}
 	s.Stats.Errors++
+	s.broken = true // the command/response pairing can no longer be trusted (e.g. z3 "push canceled")
 	if s.log != nil {
 		s.log.WriteString("; RESPONSE: " + r + "\n")
 	}
@@ -285,6 +289,7 @@ func (s *Solver) GetValues(vars []*Term) (Model, error) {
 			return nil, err
 		}
 		if strings.Contains(r, "(error") {
+			s.broken = true
 			return nil, fmt.Errorf("get-value: %s", r)
 		}
 		if err := parseValues(r, m); err != nil {
